@@ -26,6 +26,8 @@ pub struct RunOut {
     pub stdout: Vec<u8>,
     pub stderr: Vec<u8>,
     pub timed_out: bool,
+    /// number of -v flags the run was given (see `derived_verbosity`)
+    pub verbosity: u8,
 }
 impl RunOut {
     pub fn ok(&self) -> bool {
@@ -41,10 +43,11 @@ impl RunOut {
             lines[lines.len().saturating_sub(4)..].join(" | ")
         };
         format!(
-            "exit={:?} signal={:?} timed_out={} stderr=[{}] stdout_tail=[{}]",
+            "exit={:?} signal={:?} timed_out={} verbosity={} stderr=[{}] stdout_tail=[{}]",
             self.code,
             self.signal,
             self.timed_out,
+            self.verbosity,
             tail(&self.stderr),
             tail(&self.stdout)
         )
@@ -60,6 +63,24 @@ pub struct RunSpec {
     pub shim: bool,
     pub timeout_s: u64,
     pub strace_out: Option<PathBuf>,
+}
+
+/// The global `-v` flag is one more dimension of every clone / compress run: it must not change what the command
+/// does. It is derived from the case (engine::case_salt) and the arguments (URLs excluded: their port differs between
+/// runs), so a replay uses the same value: 1 run in 8 gets `-v` (debug), 1 in 16 `-vv` (trace). `bita info` is left
+/// alone (its stdout is parsed).
+pub fn derived_verbosity(args: &[String]) -> u8 {
+    if !matches!(args.first().map(|s| s.as_str()), Some("clone") | Some("compress")) || std::env::var("BVERIF_NO_VERBOSITY").is_ok() {
+        return 0;
+    }
+    let salt = crate::engine::case_salt().to_le_bytes();
+    let mut parts: Vec<&[u8]> = args.iter().filter(|a| !a.starts_with("http://")).map(|a| a.as_bytes()).collect();
+    parts.push(&salt);
+    match crate::engine::blake2_64(&parts) % 16 {
+        13 | 14 => 1,
+        15 => 2,
+        _ => 0,
+    }
 }
 
 pub fn run_bita(cwd: &Path, spec: &RunSpec) -> RunOut {
@@ -78,7 +99,27 @@ pub fn run_bita(cwd: &Path, spec: &RunSpec) -> RunOut {
     } else {
         Command::new(&bin)
     };
-    cmd.args(&spec.args).current_dir(cwd);
+    let verbosity = derived_verbosity(&spec.args);
+    for _ in 0..verbosity {
+        cmd.arg("-v");
+    }
+    // two more options that must not change what an HTTP clone does: a generous --http-timeout and a custom header
+    let mut args = spec.args.clone();
+    if args.first().map(|s| s.as_str()) == Some("clone") && args.iter().any(|a| a.starts_with("http://")) && std::env::var("BVERIF_NO_VERBOSITY").is_err() {
+        let salt = crate::engine::case_salt().to_le_bytes();
+        let mut parts: Vec<&[u8]> = args.iter().filter(|a| !a.starts_with("http://")).map(|a| a.as_bytes()).collect();
+        parts.push(&salt);
+        let h = crate::engine::blake2_64(&parts) >> 8;
+        if h % 8 == 0 && !args.iter().any(|a| a == "--http-timeout") {
+            args.insert(1, "--http-timeout".into());
+            args.insert(2, "90".into());
+        }
+        if (h >> 8) % 8 == 0 && !args.iter().any(|a| a == "--http-header") {
+            args.insert(1, "--http-header".into());
+            args.insert(2, "X-Verif-Case: a b=c".into());
+        }
+    }
+    cmd.args(&args).current_dir(cwd);
     cmd.env("RUST_BACKTRACE", "0");
     cmd.env_remove("LD_PRELOAD");
     for k in ["IOHOOK_LOG", "IOHOOK_WATCH", "IOHOOK_DELAY", "IOHOOK_FAIL", "IOHOOK_SHORT", "IOHOOK_KILL", "BITA_VERIF_FORCE_BLOCKDEV"] {
@@ -133,7 +174,7 @@ pub fn run_bita(cwd: &Path, spec: &RunSpec) -> RunOut {
     let stdout = t_out.join().unwrap_or_default();
     let stderr = t_err.join().unwrap_or_default();
     use std::os::unix::process::ExitStatusExt;
-    RunOut { code: status.code(), signal: status.signal(), stdout, stderr, timed_out }
+    RunOut { code: status.code(), signal: status.signal(), stdout, stderr, timed_out, verbosity }
 }
 
 // ---------------------------------------------------------------------------------------
